@@ -3,7 +3,7 @@
    accepted value, or rejection); [check] evaluates the model on the same input
    and compares every field.  A model answer Out (input outside the modelled
    domain) is only accepted when the harness declared the case out of domain. *)
-From Slug Require Import Base.Str Base.PathAlg Addr.Resolve Addr.Url Addr.Parse.
+From Slug Require Import Base.Str Base.PathAlg Addr.Resolve Addr.Url Addr.Parse Addr.RoundTrip.
 Export Str Url Parse.
 
 Inductive api := ApSource | ApFinal | ApRemote | ApRemotePkg | ApRegistry | ApRegistryPkg
@@ -58,7 +58,20 @@ Definition obs_eqb (a b : obs) : bool :=
    model's domain, and the observation (None = rejected) *)
 Inductive case := Case (a : api) (s : str) (in_dom : bool) (o : option obs).
 
+(* every registry package value the parsers return is well formed in the sense the
+   round-trip theorem (Addr/RoundTrip.v) assumes *)
+Definition wf_check (a : api) (s : str) : bool :=
+  match a with
+  | ApRegistry => match parse_registry s with Ok (p, _) => wf_mpkgb p | _ => true end
+  | ApRegistryPkg => match parse_registry_pkg s with Ok p => wf_mpkgb p | _ => true end
+  | ApFinalRegistry => match parse_final_registry s with Ok (p, _, _) => wf_mpkgb p | _ => true end
+  | ApSource => match parse_source s with Ok (ARegistry p _) => wf_mpkgb p | _ => true end
+  | ApFinal => match parse_final_source s with Ok (ARegistryFinal p _ _) => wf_mpkgb p | _ => true end
+  | _ => true
+  end.
+
 Definition check (c : case) : bool :=
+  wf_check (match c with Case a _ _ _ => a end) (match c with Case _ s _ _ => s end) &&&
   match c with
   | Case a s in_dom o =>
       match run_api a s, o with
